@@ -38,6 +38,13 @@ type Val struct {
 	Bind   []Val
 	Iter   *mapIter
 	Moved  bool
+	Alts   []FuncAlt // VFunc: a choice among known closures (after a merge)
+}
+
+type FuncAlt struct {
+	Cond *Term
+	Fn   *ssa.Function
+	Bind []Val
 }
 
 type mapIter struct {
@@ -315,8 +322,31 @@ func (p Place) elem(i *Term) Place {
 	return Place{p.Prefix + "[]", append(append([]*Term{}, p.Idx...), i)}
 }
 
-// loadPlace reads a value of type t from the place.
+// refLoadedHook is told about every reference-valued term read from memory (set by the executor:
+// references found in the initial heap lie below alloc0, also when a contract reads them).
+var refLoadedHook func(t *Term)
+
 func loadPlace(h *Heap, p Place, t types.Type) Val {
+	v := loadPlace0(h, p, t)
+	if refLoadedHook != nil {
+		switch v.K {
+		case VPtr:
+			if len(v.Idx) == 1 {
+				refLoadedHook(v.Idx[0])
+			}
+		case VMap, VIface:
+			if v.T != nil {
+				refLoadedHook(v.T)
+			}
+		case VSlice:
+			refLoadedHook(v.Arr)
+		}
+	}
+	return v
+}
+
+// loadPlace0 reads a value of type t from the place.
+func loadPlace0(h *Heap, p Place, t types.Type) Val {
 	switch kindOf(t) {
 	case VScalar:
 		return scalarVal(h.Get(p.Prefix, len(p.Idx), sortOfType(t)).Select(p.Idx), t)
@@ -493,7 +523,19 @@ func valIte(c *Term, a, b Val) Val {
 	case VFunc:
 		if a.Fn != b.Fn {
 			if a.T != nil && b.T != nil {
-				return Val{K: VFunc, Typ: a.Typ, T: Ite(c, a.T, b.T)}
+				out := Val{K: VFunc, Typ: a.Typ, T: Ite(c, a.T, b.T)}
+				alts := func(v Val, cond *Term) []FuncAlt {
+					if v.Fn != nil {
+						return []FuncAlt{{cond, v.Fn, v.Bind}}
+					}
+					var r []FuncAlt
+					for _, x := range v.Alts {
+						r = append(r, FuncAlt{And(cond, x.Cond), x.Fn, x.Bind})
+					}
+					return r
+				}
+				out.Alts = append(alts(a, c), alts(b, Not(c))...)
+				return out
 			}
 			unsupported("merge of distinct closures")
 		}
